@@ -92,6 +92,12 @@ class SimFS:
             txt = io.TextIOWrapper(buf, encoding, errors, newline, buffering == 1)
             result = txt
             txt.mode = mode
+            # the text layer batches 8 KiB before it hands anything down; shrink it with the same knob,
+            # otherwise a small file reaches the raw layer only at close() and has a single crash point
+            try:
+                txt._CHUNK_SIZE = max(1, int(size))
+            except (AttributeError, ValueError):
+                pass
             return result
         except BaseException:
             result.close()
